@@ -287,7 +287,7 @@ Proof.
     + intros t0 l Ht0 Hl.
       assert (Hex : exists c1, In c1 (cells g) /\ mid c1 = lid l /\ mdir c1 = ldir l).
       { apply in_upd_nth in Ht0 as [->|Ht0]; [|eauto].
-        cbn in Hl. apply in_app_or in Hl as [Hl|[<-|[]]]; eauto. exists c0. cbn. auto. }
+        unfold t' in Hl. cbn [cloans] in Hl. apply in_app_or in Hl as [Hl|[<-|[]]]; [eauto|]. exists c0. cbn. auto. }
       destruct Hex as (c1 & Hc1 & E1 & E2).
       exists (if (mid c1 =? id)%N then cell_with c1 (mseq c1) (lender c1) true else c1).
       split; [unfold upd_cell; apply in_map_iff; exists c1; auto|]. destruct (mid c1 =? id)%N; auto.
@@ -353,7 +353,7 @@ Proof.
     + intros t0 l Ht0 Hl.
       assert (Hex : exists c1, In c1 (cells g) /\ mid c1 = lid l /\ mdir c1 = ldir l).
       { apply in_upd_nth in Ht0 as [->|Ht0]; [|eauto].
-        cbn in Hl. clear - Hl Hloans Hint Ex.
+        unfold t' in Hl. cbn [cloans] in Hl. clear - Hl Hloans Hint Ex.
         assert (Hin : In l (cloans t) \/ (lid l = lid x /\ ldir l = ldir x)).
         { revert c Ex Hl. induction (cloans t) as [|z ls IH]; intros [|c] Ex Hl; cbn in *; try discriminate; try tauto.
           - inv Ex. destruct Hl as [<-|Hl]; auto.
@@ -368,4 +368,291 @@ Proof.
     + intros i0 s Hin. destruct (Htr i0 s Hin) as (c1 & Hc1 & E).
       exists (if (mid c1 =? lid x)%N then cell_with c1 (mseq c1) (lender c1) false else c1).
       split; [unfold upd_cell; apply in_map_iff; exists c1; auto|]. destruct (mid c1 =? lid x)%N; auto.
+Qed.
+
+Lemma minv_mstep t g : minv g -> minv (mstep t g).
+Proof. destruct t; [apply minv_mwstep|apply minv_mcstep]. Qed.
+
+Lemma minv_runs smax wp cps sched : minv (mruns sched (minit smax wp cps)).
+Proof. unfold mruns. apply run_invariant; [intros; apply minv_mstep; auto|apply minv_init]. Qed.
+
+(** ** C40 on the in-memory state *)
+
+(** at most one live context (loan) per channel, over all clients, in every reachable state *)
+Definition single_live_ctx_stmt : Prop :=
+  forall (smax : N) (wp : list mop) (cps : list (list cop)) (sched : list nat) (id : N),
+  let g := mruns sched (minit smax wp cps) in
+  count_live id (mcs g) <= 1
+  /\ (* a setup that returns a context does so only when none is live *)
+     forall i t d rest, nth_error (mcs g) i = Some t -> cprog t = CSetup d id :: rest ->
+       count_live id (mcs g) = 1 ->
+       forall t', nth_error (mcs (mstep (S i) g)) i = Some t' -> hd_error (clog t') = Some (CSetup d id, RNotFound).
+
+Lemma single_live_ctx_proof : single_live_ctx_stmt.
+Proof.
+  intros smax wp cps sched id g.
+  pose proof (minv_runs smax wp cps sched) as Hm. fold g in Hm.
+  destruct Hm as [Hnd Hlt Hcells Hloans Hseq Htr].
+  assert (Hle : count_live id (mcs g) <= 1).
+  { destruct (in_dec N.eq_dec id (map mid (cells g))) as [Hin|Hn].
+    - apply in_map_iff in Hin as (c & <- & Hc). rewrite Forall_forall in Hcells. apply (Hcells c Hc).
+    - rewrite count_live_no_loans; [lia|]. intros t l Ht Hl E. destruct (Hloans t l Ht Hl) as (c & Hc & E1 & _).
+      apply Hn. rewrite <- E, <- E1. apply in_map; auto. }
+  split; auto.
+  intros i t d rest Hn Hp Hone t' Hn'.
+  cbn [mstep] in Hn'. unfold mcstep in Hn'. rewrite Hn in Hn'. unfold cstep1 in Hn'. rewrite Hp in Hn'.
+  destruct (find_cell (cells g) (live id)) as [c0|] eqn:Ef.
+  - destruct (negb (dir_eqb (mdir c0) d)); [cbn in Hn'; rewrite (upd_nth_same _ _ _ _ Hn) in Hn'; inv Hn'; reflexivity|].
+    destruct (shared c0) eqn:Es; [cbn in Hn'; rewrite (upd_nth_same _ _ _ _ Hn) in Hn'; inv Hn'; reflexivity|].
+    exfalso. apply find_cell_some in Ef as [Hc0 Hl]. unfold live in Hl. apply andb_prop in Hl as [Hid Hlend].
+    apply N.eqb_eq in Hid. rewrite Forall_forall in Hcells. destruct (Hcells c0 Hc0) as (_ & _ & K3).
+    rewrite Hid in K3. rewrite (K3 Hlend Es) in Hone. discriminate.
+  - cbn in Hn'. rewrite (upd_nth_same _ _ _ _ Hn) in Hn'. inv Hn'. reflexivity.
+Qed.
+
+Lemma contig_from_rev b l : contig_from b l -> rev l = map (fun i => (b + N.of_nat i)%N) (seq 0 (length l)).
+Proof.
+  induction l as [|s rest IH]; cbn [contig_from]; intros H; [reflexivity|].
+  destruct H as [-> Hc]. cbn [rev length]. rewrite seq_S, map_app, IH by auto. reflexivity.
+Qed.
+
+Lemma msmax_runs sched g : msmax (mruns sched g) = msmax g.
+Proof.
+  unfold mruns. revert g. induction sched as [|t s IH]; intros g; cbn; auto. rewrite IH.
+  destruct t as [|i]; cbn.
+  - unfold mwstep. destruct (mprog (mw g)); auto. destruct m; reflexivity.
+  - unfold mcstep. destruct (nth_error (mcs g) i); auto.
+    destruct (cstep1 (msmax g) (cells g) (mtrace g) c) as [[? ?] ?]. reflexivity.
+Qed.
+
+(** the sequence numbers a channel's key has sealed with, over all its
+    successive contexts and all clients: seq0, seq0+1, ... below the limit *)
+Definition mem_seq_contiguous_stmt : Prop :=
+  forall (smax : N) (wp : list mop) (cps : list (list cop)) (sched : list nat) c,
+  let g := mruns sched (minit smax wp cps) in
+  In c (cells g) ->
+  let seqs := rev (chan_seqs (mid c) (mtrace g)) in
+  seqs = map (fun i => (mseq0 c + N.of_nat i)%N) (seq 0 (length seqs))
+  /\ Forall (fun s => (s < smax)%N) seqs
+  /\ mseq c = (mseq0 c + N.of_nat (length seqs))%N.
+
+Lemma mem_seq_contiguous_proof : mem_seq_contiguous_stmt.
+Proof.
+  intros smax wp cps sched c g Hc seqs.
+  pose proof (minv_runs smax wp cps sched) as Hm. fold g in Hm. destruct Hm as [_ _ _ _ Hseq _].
+  rewrite Forall_forall in Hseq. destruct (Hseq c Hc) as (S1 & S2 & S3).
+  unfold g in S3 at 1. rewrite msmax_runs in S3. cbn in S3.
+  subst seqs. rewrite rev_length. split; [apply contig_from_rev; auto|]. split; auto.
+  apply Forall_forall. intros s Hin. rewrite <- in_rev in Hin. rewrite Forall_forall in S3. auto.
+Qed.
+
+(** ** C41 on the in-memory state *)
+Definition mgone (id : N) (g : MG) : Prop := exists c, In c (cells g) /\ mid c = id /\ lender c = false.
+
+Lemma mgone_step id t g : minv g -> mgone id g -> mgone id (mstep t g).
+Proof.
+  intros Hm (c & Hc & Hid & Hl). destruct t as [|i]; cbn [mstep].
+  - unfold mwstep. destruct (mprog (mw g)) as [|op rest]; [exists c; auto|].
+    assert (Hd : forall sel, exists c', In c' (drop_lenders sel (cells g)) /\ mid c' = id /\ lender c' = false).
+    { intros sel. exists (if lender c && sel c then cell_with c (mseq c) false false else c).
+      split; [unfold drop_lenders; apply in_map_iff; exists c; auto|]. destruct (lender c && sel c); auto. }
+    destruct op; cbn; unfold mgone; cbn; auto.
+    + exists c. split; auto. apply in_or_app; auto.
+    + exists c. auto.
+  - unfold mcstep. destruct (nth_error (mcs g) i) as [t|]; [|exists c; auto].
+    assert (Hu : forall id' f, (forall y, mid (f y) = mid y /\ lender (f y) = lender y) ->
+               exists c', In c' (upd_cell (cells g) id' f) /\ mid c' = id /\ lender c' = false).
+    { intros id' f Hf. exists (if (mid c =? id')%N then f c else c).
+      split; [unfold upd_cell; apply in_map_iff; exists c; auto|].
+      destruct (mid c =? id')%N; auto. destruct (Hf c) as [-> ->]. auto. }
+    unfold cstep1. destruct (cprog t) as [|op rest]; [exists c; auto|].
+    destruct op as [d id'|c0 md|c0 key label valid|id'|c0]; unfold mgone; cbn [cells].
+    + destruct (find_cell (cells g) (live id')) as [c1|]; [|exists c; auto].
+      destruct (negb (dir_eqb (mdir c1) d)); [exists c; auto|]. destruct (shared c1); [exists c; auto|].
+      cbn. apply Hu. auto.
+    + destruct (loan_of (cloans t) c0 DSeal) as [x|]; [|exists c; auto].
+      destruct (find_cell (cells g) (fun y => (mid y =? lid x)%N)) as [y|]; [|exists c; auto].
+      destruct (shared y); [|exists c; auto]. destruct (sealf (msmax g) md (mseq y)). cbn. apply Hu. auto.
+    + destruct (loan_of (cloans t) c0 DOpen) as [x|]; [|exists c; auto].
+      destruct (find_cell (cells g) (fun y => (mid y =? lid x)%N)) as [y|]; [|exists c; auto].
+      destruct (shared y); exists c; auto.
+    + exists c; auto.
+    + destruct (nth_error (cloans t) c0) as [x|]; [|exists c; auto].
+      destruct (ldropped x); [exists c; auto|]. cbn. apply Hu. auto.
+Qed.
+
+(** the step that performs a removal leaves the channel gone *)
+Lemma mremove_gone g id rest :
+  minv g -> mprog (mw g) = MRemove id :: rest -> In id (map mid (cells g)) -> mgone id (mstep 0 g).
+Proof.
+  intros Hm Hp Hin. cbn. unfold mwstep. rewrite Hp. cbn. apply in_map_iff in Hin as (c & E & Hc).
+  exists (if lender c && (mid c =? id)%N then cell_with c (mseq c) false false else c).
+  split; [unfold drop_lenders; apply in_map_iff; exists c; auto|].
+  rewrite E, N.eqb_refl, andb_true_r. destruct (lender c) eqn:El; auto.
+Qed.
+
+Definition mfailing (op : cop) (res : rres) : Prop :=
+  match op with
+  | CSeal _ _ | COpen _ _ _ _ => res = RNotFound \/ res = RInvalid
+  | CSetup _ _ => res = RNotFound
+  | CExists _ => res = RBool false
+  | CDrop _ => True
+  end.
+Definition mgood (id : N) (ls : list loan) (e : cop * rres) : Prop :=
+  let '(op, res) := e in
+  match op with
+  | CSetup _ i | CExists i => i = id -> mfailing op res
+  | CSeal c _ | COpen c _ _ _ => mfailing op res \/ exists x, nth_error ls c = Some x /\ lid x <> id
+  | CDrop _ => True
+  end.
+
+Lemma set_loan_nth ls : forall c y j,
+  nth_error (set_loan ls c y) j = if (c =? j) && (c <? length ls) then Some y else nth_error ls j.
+Proof.
+  induction ls as [|z ls IH]; intros c y j.
+  - destruct c, j; cbn; auto. rewrite andb_false_r. reflexivity.
+  - destruct c as [|c], j as [|j]; cbn; auto. rewrite IH. cbn.
+    replace (S c <? S (length ls)) with (c <? length ls); auto.
+Qed.
+
+(** what one client step logs, and that loans keep their channel *)
+Lemma cstep1_gone id g t :
+  minv g -> mgone id g -> In t (mcs g) ->
+  let '(_, _, t') := cstep1 (msmax g) (cells g) (mtrace g) t in
+  (forall c x, nth_error (cloans t) c = Some x -> exists x', nth_error (cloans t') c = Some x' /\ lid x' = lid x)
+  /\ (clog t' = clog t \/ exists op res, clog t' = (op, res) :: clog t /\ mgood id (cloans t') (op, res)).
+Proof.
+  intros Hm (cg & Hcg & Hidg & Hlg) Hint. pose proof Hm as [Hnd Hlt Hcells Hloans Hseq Htr].
+  assert (Hnoshare : shared cg = false).
+  { rewrite Forall_forall in Hcells. destruct (Hcells cg Hcg) as (_ & K2 & _).
+    destruct (shared cg); auto. destruct (K2 eq_refl) as [K _]. congruence. }
+  assert (Hfindid : find_cell (cells g) (live id) = None).
+  { destruct (find_cell (cells g) (live id)) as [c1|] eqn:E; auto.
+    apply find_cell_some in E as [Hc1 Hl]. unfold live in Hl. apply andb_prop in Hl as [H1 H2]. apply N.eqb_eq in H1.
+    assert (c1 = cg) by (eapply nodup_mid_unique; eauto; congruence). subst. congruence. }
+  unfold cstep1. destruct (cprog t) as [|op rest]; [split; eauto|].
+  destruct op as [d id'|c md|c key label valid|id'|c].
+  - destruct (find_cell (cells g) (live id')) as [c1|] eqn:Ef.
+    + destruct (negb (dir_eqb (mdir c1) d)); [split; [eauto|right; do 2 eexists; split; [reflexivity|cbn; auto]]|].
+      destruct (shared c1); [split; [eauto|right; do 2 eexists; split; [reflexivity|cbn; auto]]|].
+      split.
+      * cbn. intros c x Hx. exists x. split; auto. rewrite nth_error_app1; auto. apply nth_error_Some. congruence.
+      * right. do 2 eexists. split; [reflexivity|]. cbn. intros ->. rewrite Hfindid in Ef. discriminate.
+    + split; [eauto|right; do 2 eexists; split; [reflexivity|cbn; auto]].
+  - destruct (loan_of (cloans t) c DSeal) as [x|] eqn:El; [|split; [eauto|right; do 2 eexists; split; [reflexivity|cbn; auto]]].
+    assert (Hx : nth_error (cloans t) c = Some x).
+    { unfold loan_of in El. destruct (nth_error (cloans t) c) as [x0|]; [|discriminate].
+      destruct (dir_eqb (ldir x0) DSeal && negb (ldropped x0)); inv El; auto. }
+    destruct (find_cell (cells g) (fun y => (mid y =? lid x)%N)) as [y|] eqn:Ef;
+      [|split; [eauto|right; do 2 eexists; split; [reflexivity|cbn; auto]]].
+    apply find_cell_some in Ef as [Hy Hid]. apply N.eqb_eq in Hid.
+    destruct (shared y) eqn:Es; [|split; [eauto|right; do 2 eexists; split; [reflexivity|cbn; auto]]].
+    destruct (sealf (msmax g) md (mseq y)) as [fr sq]. split; [eauto|].
+    right. do 2 eexists. split; [reflexivity|]. cbn. right. exists x. split; auto.
+    intros E. assert (y = cg) by (eapply nodup_mid_unique; eauto; congruence). subst. congruence.
+  - destruct (loan_of (cloans t) c DOpen) as [x|] eqn:El; [|split; [eauto|right; do 2 eexists; split; [reflexivity|cbn; auto]]].
+    assert (Hx : nth_error (cloans t) c = Some x).
+    { unfold loan_of in El. destruct (nth_error (cloans t) c) as [x0|]; [|discriminate].
+      destruct (dir_eqb (ldir x0) DOpen && negb (ldropped x0)); inv El; auto. }
+    destruct (find_cell (cells g) (fun y => (mid y =? lid x)%N)) as [y|] eqn:Ef;
+      [|split; [eauto|right; do 2 eexists; split; [reflexivity|cbn; auto]]].
+    apply find_cell_some in Ef as [Hy Hid]. apply N.eqb_eq in Hid.
+    destruct (shared y) eqn:Es; [|split; [eauto|right; do 2 eexists; split; [reflexivity|cbn; auto]]].
+    split; [eauto|].
+    right. do 2 eexists. split; [reflexivity|]. cbn. right. exists x. split; auto.
+    intros E. assert (y = cg) by (eapply nodup_mid_unique; eauto; congruence). subst. congruence.
+  - split; [eauto|]. right. do 2 eexists. split; [reflexivity|]. cbn. intros ->. rewrite Hfindid. reflexivity.
+  - destruct (nth_error (cloans t) c) as [x|] eqn:Ex; [|split; [eauto|right; do 2 eexists; split; [reflexivity|cbn; auto]]].
+    destruct (ldropped x); [split; [eauto|right; do 2 eexists; split; [reflexivity|cbn; auto]]|].
+    split; [|right; do 2 eexists; split; [reflexivity|cbn; auto]].
+    cbn. intros c1 x1 Hx1. rewrite set_loan_nth.
+    destruct ((c =? c1) && (c <? length (cloans t))) eqn:E; [|eauto].
+    apply andb_prop in E as [E _]. apply Nat.eqb_eq in E. subst c1. rewrite Ex in Hx1. inv Hx1. eexists. split; eauto.
+Qed.
+
+Lemma mgood_stable id ls ls' e :
+  (forall c x, nth_error ls c = Some x -> exists x', nth_error ls' c = Some x' /\ lid x' = lid x) ->
+  mgood id ls e -> mgood id ls' e.
+Proof.
+  intros Hst. destruct e as [op res]. destruct op; cbn; auto.
+  - intros [H|(x & Hn & Hne)]; auto. right. destruct (Hst _ _ Hn) as (x' & H1 & H2). exists x'. split; auto. congruence.
+  - intros [H|(x & Hn & Hne)]; auto. right. destruct (Hst _ _ Hn) as (x' & H1 & H2). exists x'. split; auto. congruence.
+Qed.
+
+Definition mext (id : N) (t1 t' : cthread) : Prop :=
+  exists new, clog t' = new ++ clog t1 /\ Forall (mgood id (cloans t')) new.
+Definition msince (id : N) (g1 g' : MG) : Prop :=
+  forall i t1, nth_error (mcs g1) i = Some t1 -> exists t', nth_error (mcs g') i = Some t' /\ mext id t1 t'.
+
+Lemma mcs_mwstep g : mcs (mwstep g) = mcs g.
+Proof. unfold mwstep. destruct (mprog (mw g)); auto. destruct m; reflexivity. Qed.
+
+Lemma msince_step id g1 g' t : minv g' -> mgone id g' -> msince id g1 g' -> msince id g1 (mstep t g').
+Proof.
+  intros Hm Hg Hs i t1 Hn1. destruct (Hs i t1 Hn1) as (t' & Hn' & new & Hlog & Hgood).
+  destruct t as [|j]; cbn [mstep].
+  - rewrite mcs_mwstep. exists t'. split; auto. exists new. auto.
+  - unfold mcstep. destruct (nth_error (mcs g') j) as [tj|] eqn:Ej; [|exists t'; split; auto; exists new; auto].
+    pose proof (cstep1_gone id g' tj Hm Hg (nth_error_In _ _ Ej)) as Hc.
+    destruct (cstep1 (msmax g') (cells g') (mtrace g') tj) as [[cs tr] tj'] eqn:Ec. cbn [mcs].
+    destruct (Nat.eq_dec j i) as [->|Hne].
+    + rewrite Hn' in Ej. inv Ej. exists tj'. split; [apply upd_nth_same with (x := tj); auto|].
+      destruct Hc as [Hst [Hl|(op & res & Hl & Hg')]].
+      * exists new. rewrite Hl. split; auto. eapply Forall_impl; [|exact Hgood]. intros e. apply mgood_stable; auto.
+      * exists ((op, res) :: new). rewrite Hl, Hlog. split; auto. constructor; auto.
+        eapply Forall_impl; [|exact Hgood]. intros e. apply mgood_stable; auto.
+    + exists t'. split; [rewrite upd_nth_other; auto|]. exists new. auto.
+Qed.
+
+Definition mtargets (ls : list loan) (op : cop) (id : N) : Prop :=
+  match op with
+  | CSetup _ i | CExists i => i = id
+  | CSeal c _ | COpen c _ _ _ => exists x, nth_error ls c = Some x /\ lid x = id
+  | CDrop _ => False
+  end.
+
+(** once the channel's Lender is gone (a remove* has run), it stays gone and
+    every call any client makes on it afterwards fails — on every schedule *)
+Definition mem_removed_is_gone_stmt : Prop :=
+  forall (smax : N) (wp : list mop) (cps : list (list cop)) (s1 s2 : list nat) (id : N),
+  let g1 := mruns s1 (minit smax wp cps) in
+  let g2 := mruns s2 g1 in
+  mgone id g1 ->
+  mgone id g2
+  /\ forall i t1 t2, nth_error (mcs g1) i = Some t1 -> nth_error (mcs g2) i = Some t2 ->
+     exists new, clog t2 = new ++ clog t1
+       /\ forall op res, In (op, res) new -> mtargets (cloans t2) op id -> mfailing op res.
+
+Lemma mem_removed_is_gone_proof : mem_removed_is_gone_stmt.
+Proof.
+  intros smax wp cps s1 s2 id g1 g2 Hgone.
+  pose proof (minv_runs smax wp cps s1) as Hm1. fold g1 in Hm1.
+  pose proof (run_invariant MG mstep (fun g => minv g /\ mgone id g /\ msince id g1 g)) as H.
+  destruct (H ltac:(intros t g (A & B & C); split; [apply minv_mstep; auto|]; split;
+                    [apply mgone_step; auto|apply msince_step; auto]) s2 g1) as (Hm2 & Hg2 & Hs2).
+  { split; auto. split; auto. intros i t1 Hn. exists t1. split; auto. exists []. split; auto. }
+  split; [exact Hg2|].
+  intros i t1 t2 Hn1 Hn2. destruct (Hs2 i t1 Hn1) as (t' & Hn' & new & Hlog & Hgood).
+  unfold g2, mruns in Hn2. rewrite Hn' in Hn2. inv Hn2.
+  exists new. split; auto. intros op res Hin Ht.
+  rewrite Forall_forall in Hgood. specialize (Hgood _ Hin). cbn in Hgood.
+  destruct op; cbn in *; auto.
+  - destruct Hgood as [?|(x & Hx & Hne)]; auto. destruct Ht as (x' & Hx' & E). congruence.
+  - destruct Hgood as [?|(x & Hx & Hne)]; auto. destruct Ht as (x' & Hx' & E). congruence.
+Qed.
+
+(** Non-vacuity *)
+Example mem_example :
+  let wp := [MAdd DSeal 7 3 1 5; MRemove 0] in
+  let c0 := [CSetup DSeal 0; CSeal 0 MClient; CDrop 0; CSeal 1 MClient; CSeal 1 MClient] in
+  let c1 := [CSetup DSeal 0; CSetup DSeal 0; CExists 0] in
+  let g1 := mruns [0; 1; 2; 1; 1; 2; 1] (minit 7 wp [c0; c1]) in
+  let g2 := mruns [0; 1; 2] g1 in
+  map (fun c => rev (map (fun x => rres_canon (snd x)) (clog c))) (mcs g1)
+    = [[[0; 0]; [3; 0; 0; 5; 7; 3]; [8]; [6]]; [[1]; [0; 0]]]%N
+  /\ count_live 0 (mcs g1) = 1 /\ mgone 0 g2
+  /\ rev (mtrace g2) = [(0, 5)]%N.
+Proof.
+  cbv zeta. split; [vm_compute; reflexivity|]. split; [vm_compute; reflexivity|]. split; [|vm_compute; reflexivity].
+  unfold mgone. vm_compute. eexists. split; [left; reflexivity|]. split; reflexivity.
 Qed.
